@@ -2,7 +2,7 @@
  * the context is idle, when the loop returns if it is looping; a persistent one survives with zero modules until it is
  * deregistered explicitly.  Afterwards the thread can register a fresh context and, once the user references are
  * dropped, every library allocation has been released (allocator hook count).
- * Per job: NMOD (1..2), PERSIST, KEEP (the user holds a second reference on every module), ST (state of the modules
+ * Per job: NMOD (1..2), PERSIST, UDAUTO (M_CTX_USERDATA_AUTOFREE), KEEP (the user holds a second reference on every module), ST (state of the modules
  * in the idle modes: 0 IDLE, 1 RUNNING, 2 PAUSED, 3 STOPPED), MODE:
  *   0 idle context, modules deregistered one after the other by direct calls
  *   1 idle context, the last module deregisters itself from inside its start callback (m_mod_start on an idle context)
@@ -12,8 +12,8 @@
  *   5 idle context, two modules: the user deregisters A, whose stop callback deregisters B
  *   6 as 2, but the handler of the last module registers a new module before returning: the context is not empty when
  *     the loop returns and must survive
- * Symbolic: errno left by callbacks, M_CTX_USERDATA_AUTOFREE bit, module user data identity, quit code is not used
- * (the loops end because nobody is RUNNING any more). */
+ * Symbolic: errno left by callbacks, module user data identity (the loops end because nobody is RUNNING any more: no
+ * quit code). */
 #include "vf.h"
 #include "vf_os.h"
 #include <module/mod.h>
@@ -32,6 +32,9 @@
 #endif
 #ifndef MODE
 #define MODE 0
+#endif
+#ifndef UDAUTO
+#define UDAUTO 0
 #endif
 #if (MODE == 4 && NMOD != 1) || (MODE == 5 && NMOD != 2)
 #error "module count does not fit the mode"
@@ -91,7 +94,7 @@ int vf_main(void) {
     int r;
     c07_hook();
     void *cud = c07_user_block(0, 1);
-    _Bool ud_auto = nondet_bool();
+    const _Bool ud_auto = UDAUTO;      /* per job: a symbolic flag word makes the PERSIST / NAME_DUP tests inside the library symbolic */
     r = m_ctx_register("ctx", (PERSIST ? M_CTX_PERSIST : 0) | (ud_auto ? M_CTX_USERDATA_AUTOFREE : 0), cud);
     VF_CHECK(r == 0, "context registered");
     _Bool which_ud = nondet_bool();
@@ -159,6 +162,9 @@ int vf_main(void) {
 #if KEEP
         VF_CHECK(m_mod_is(old, M_MOD_ZOMBIE), "the replaced module was deregistered");
 #endif
+        /* (the callbacks of the new module are recorded under index 0 as well: judge the old one's stop callback now) */
+        if (act[0]) VF_CHECK(vf_nstop[0] - base[0] == 1, "a RUNNING or PAUSED module is stopped through its stop callback when replaced, exactly once");
+        act[0] = 0;
         m_mem_unref(old);              /* the reference m_mod_register() gave the user for the old module */
         check_alive(1);
         VF_CHECK(m_mod_is(neu, M_MOD_IDLE), "the new module is registered");
